@@ -15,6 +15,12 @@ class Prop(PoolProp):
             "the Lean model; oracle: yielded values = map(f, data) (unordered: concatenation of the mapped chunks in some order), "
             "no result chunk left in the queue; non-trivial = at least 20 steps with a non-empty call")
 
+    def cover_cfgs(self, tier):
+        cfgs = [Cfg(n_workers=1, calls=[(1, 1, True)]), Cfg(n_workers=1, calls=[(2, 2, False)], none_inputs=True)]
+        if tier == "thorough":
+            cfgs += [Cfg(n_workers=2, calls=[(2, 1, True)]), Cfg(n_workers=1, res_cap=1, calls=[(3, 1, True)])]
+        return cfgs
+
     def corpus(self):
         c = Cfg(n_workers=2, calls=[(3, 1, True), (0, 1, True), (2, 1, False)])
         return [(c, ("roles", "CWRF", "never", True), chooser_roles("CWRF", "never", True), "D15: consumer tests the flags first"),
